@@ -64,15 +64,24 @@ class StmtMixin:
             return 'return (%s){0};' % cx.ret_ctype
         return 'return 0;'
 
+    def during_unwind(self, lines):
+        """destructors of an exceptional edge run with the exception in flight but not `pending` for the code
+        they call; an exception leaving such a destructor is std::terminate"""
+        if not lines:
+            return []
+        return ['{ struct vf_exc_t _sv = vf_exc; vf_exc.pending = 0;'] + lines + \
+               ['__CPROVER_assert(!vf_exc.pending, "repo_terminate exception thrown by a destructor during stack unwinding");',
+                'vf_exc = _sv; }']
+
     def exc_edge(self, cx):
         """statements executed right after a call that may have raised"""
         if cx.nothrow_ctx():
             return ['__CPROVER_assert(!vf_exc.pending, "repo_terminate exception escapes noexcept function %s");' % cx.cname]
         if cx.try_stack:
             lbl, depth = cx.try_stack[-1]
-            body = self.unwind_lines(cx, depth)
+            body = self.during_unwind(self.unwind_lines(cx, depth))
             return ['if (vf_exc.pending) { %s goto %s; }' % (' '.join(body), lbl)]
-        body = self.unwind_lines(cx, 0)
+        body = self.during_unwind(self.unwind_lines(cx, 0))
         return ['if (vf_exc.pending) { %s %s }' % (' '.join(body), self.dummy_return(cx))]
 
     # -------------------------------------------------------------- throw
@@ -155,8 +164,8 @@ class StmtMixin:
                     '__CPROVER_assume(0);']
         if cx.try_stack:
             lbl, depth = cx.try_stack[-1]
-            return ['{ %s goto %s; }' % (' '.join(self.unwind_lines(cx, depth)), lbl)]
-        return ['{ %s %s }' % (' '.join(self.unwind_lines(cx, 0)), self.dummy_return(cx))]
+            return ['{ %s goto %s; }' % (' '.join(self.during_unwind(self.unwind_lines(cx, depth))), lbl)]
+        return ['{ %s %s }' % (' '.join(self.during_unwind(self.unwind_lines(cx, 0))), self.dummy_return(cx))]
 
     # ---------------------------------------------------------- statements
     def flush(self, cx, out, ind):
@@ -736,14 +745,38 @@ class StmtMixin:
                     for l in self.dtor_call('self->%s' % f['name'], fti['rec'], cx):
                         out.append('  ' + l)
         if body is not None and cx.ret_ctype != 'void' and not cx.sret and kind not in ('CXXConstructorDecl', 'CXXDestructorDecl'):
-            last = body.get('inner', [])[-1] if body.get('inner') else None
-            if last is None or last.get('kind') != 'ReturnStmt':
+            if not self.ends_in_return(body):
                 out.append('  __CPROVER_assert(0, "repo_assert control reaches the end of non-void function %s");' % cname)
                 out.append('  ' + self.dummy_return(cx))
         self.pop_scope(cx)
         info['loops'] = cx.loops
         txt = '/* %s\n   %s */\n%s\n/*@CONTRACT %s@*/\n{\n%s\n}' % (pretty, info['loc'], sig, cname, '\n'.join('  ' + l for l in out))
         self.fn_text[cname] = txt
+
+    def ends_in_return(self, s):
+        if s is None:
+            return False
+        k = s.get('kind')
+        if k == 'ReturnStmt':
+            return True
+        if k == 'CompoundStmt':
+            inner = [c for c in s.get('inner', []) if c.get('kind')]
+            return bool(inner) and self.ends_in_return(inner[-1])
+        if k == 'IfStmt':
+            inner = list(s.get('inner', []))
+            if s.get('hasVar') or s.get('hasInit'):
+                inner = inner[1:]
+            if s.get('isConstexpr'):
+                v = self.const_value(inner[0])
+                kids = inner[1:]
+                live = kids[0] if v else (kids[1] if len(kids) > 1 else None)
+                return self.ends_in_return(live)
+            return len(inner) > 2 and self.ends_in_return(inner[1]) and self.ends_in_return(inner[2])
+        if k == 'CXXTryStmt':
+            return all(self.ends_in_return(c if c.get('kind') == 'CompoundStmt' else [x for x in c.get('inner', []) if x.get('kind')][-1]) for c in s.get('inner', []))
+        if k == 'AttributedStmt':
+            return self.ends_in_return(s['inner'][-1])
+        return False
 
     def pretty_name(self, d):
         m = d.get('mangledName')
